@@ -593,6 +593,7 @@ FUNCS = [
     ('g_fw_get_fraction_expanding', 'localcider/sequenceParameters.py', 'SequenceParameters', 'get_fraction_expanding', []),
     ('g_fw_get_kappa_after_phosphorylation', 'localcider/sequenceParameters.py', 'SequenceParameters', 'get_kappa_after_phosphorylation', []),
     ('g_fw_get_sequence', 'localcider/sequenceParameters.py', 'SequenceParameters', 'get_sequence', []),
+    ('g_fw_get_shuffled_sequence', 'localcider/sequenceParameters.py', 'SequenceParameters', 'get_shuffled_sequence', []),
     ('g_fw_set_phosphosites', 'localcider/sequenceParameters.py', 'SequenceParameters', 'set_phosphosites', []),
     ('g_fw_clear_phosphosites', 'localcider/sequenceParameters.py', 'SequenceParameters', 'clear_phosphosites', []),
     ('g_fw_get_full_phosphostatus', 'localcider/sequenceParameters.py', 'SequenceParameters', 'get_full_phosphostatus_kappa_distribution', []),
